@@ -280,6 +280,12 @@ type c06Config struct {
 	Codecs       int        `json:"codecs"`
 	Compressions int        `json:"compressions"`
 	StreamTypes  int        `json:"stream_types"`
+	// CodecList, when non-empty, is the codecs field exactly as written (order
+	// and repetitions); Codecs is then the set of its elements. Empty: the
+	// elements of Codecs in ascending enum order. config.proto gives the list no
+	// order semantics ("If empty, 'proto' and 'json' are assumed"; CODEC_TEXT "not
+	// used; will be ignored"), so Spec only ever looks at Codecs.
+	CodecList []int `json:"codec_list,omitempty"`
 	Flags        [7]int     `json:"flags"` // tri-state each, order of c06FlagNames
 	Include      []c06Entry `json:"include,omitempty"`
 	Exclude      []c06Entry `json:"exclude,omitempty"`
@@ -297,6 +303,30 @@ func c06Bits(mask, n int) []int {
 		}
 	}
 	return out
+}
+
+// c06CodecSeq is the codecs field as it is written into the input.
+func c06CodecSeq(cfg *c06Config) []int {
+	if len(cfg.CodecList) > 0 {
+		return cfg.CodecList
+	}
+	return c06Bits(cfg.Codecs, 3)
+}
+
+func c06MaskOf(list []int) int {
+	m := 0
+	for _, v := range list {
+		m |= 1 << (v - 1)
+	}
+	return m
+}
+
+// c06WithCodecList returns cfg with the codecs field written as list.
+func c06WithCodecList(cfg c06Config, list []int) c06Config {
+	c := c06Clone(&cfg)
+	c.CodecList = append([]int(nil), list...)
+	c.Codecs = c06MaskOf(list)
+	return c
 }
 
 func c06TriPtr(t int) *bool {
@@ -349,7 +379,7 @@ func c06Message(cfg *c06Config) *conformancev1.Config {
 	for _, v := range c06Scramble(c06Bits(cfg.Protocols, 3), cfg.Form) {
 		f.Protocols = append(f.Protocols, conformancev1.Protocol(v))
 	}
-	for _, v := range c06Scramble(c06Bits(cfg.Codecs, 3), cfg.Form) {
+	for _, v := range c06Scramble(c06CodecSeq(cfg), cfg.Form) {
 		f.Codecs = append(f.Codecs, conformancev1.Codec(v))
 	}
 	for _, v := range c06Scramble(c06Bits(cfg.Compressions, 6), cfg.Form) {
@@ -439,7 +469,7 @@ func c06YAML(cfg *c06Config) []byte {
 	sb.WriteString("# generated by the C06 harness\nfeatures:\n")
 	c06ListYAML(&sb, "versions", c06Bits(cfg.Versions, 3), func(v int) string { return conformancev1.HTTPVersion(v).String() })
 	c06ListYAML(&sb, "protocols", c06Bits(cfg.Protocols, 3), func(v int) string { return conformancev1.Protocol(v).String() })
-	c06ListYAML(&sb, "codecs", c06Bits(cfg.Codecs, 3), func(v int) string { return conformancev1.Codec(v).String() })
+	c06ListYAML(&sb, "codecs", c06CodecSeq(cfg), func(v int) string { return conformancev1.Codec(v).String() })
 	c06ListYAML(&sb, "compressions", c06Bits(cfg.Compressions, 6), func(v int) string { return conformancev1.Compression(v).String() })
 	c06ListYAML(&sb, "stream_types", c06Bits(cfg.StreamTypes, 5), func(v int) string { return conformancev1.StreamType(v).String() })
 	for i, n := range c06FlagNames {
@@ -923,6 +953,7 @@ func c06Clone(cfg *c06Config) c06Config {
 	c := *cfg
 	c.Include = append([]c06Entry(nil), cfg.Include...)
 	c.Exclude = append([]c06Entry(nil), cfg.Exclude...)
+	c.CodecList = append([]int(nil), cfg.CodecList...)
 	return c
 }
 
@@ -961,16 +992,33 @@ func c06Simpler(cfg *c06Config) []c06Config {
 		}
 		c := c06Clone(cfg)
 		*axes(&c)[a] = 0
+		c06FixCodecList(&c)
 		out = append(out, c)
 		if bits.OnesCount(uint(mask)) > 1 {
 			for b := 0; b < 6; b++ {
 				if mask&(1<<b) != 0 {
 					c := c06Clone(cfg)
 					*axes(&c)[a] = mask &^ (1 << b)
+					c06FixCodecList(&c)
 					out = append(out, c)
 				}
 			}
 		}
+	}
+	// the codecs field as written: drop a repeated element, then the order itself
+	if len(cfg.CodecList) > 0 {
+		seen := map[int]bool{}
+		for i, v := range cfg.CodecList {
+			if seen[v] {
+				c := c06Clone(cfg)
+				c.CodecList = append(c.CodecList[:i], c.CodecList[i+1:]...)
+				out = append(out, c)
+			}
+			seen[v] = true
+		}
+		c := c06Clone(cfg)
+		c.CodecList = nil
+		out = append(out, c)
 	}
 	for li := 0; li < 2; li++ {
 		list := cfg.Include
@@ -1006,6 +1054,21 @@ func c06Simpler(cfg *c06Config) []c06Config {
 		out = append(out, c)
 	}
 	return out
+}
+
+// c06FixCodecList keeps CodecList a way of writing the set Codecs after an
+// element was dropped from the set.
+func c06FixCodecList(c *c06Config) {
+	if len(c.CodecList) == 0 {
+		return
+	}
+	var kept []int
+	for _, v := range c.CodecList {
+		if c06Has(c.Codecs, v) {
+			kept = append(kept, v)
+		}
+	}
+	c.CodecList = kept
 }
 
 func c06Minimize(cfg *c06Config, kind string) c06Config {
@@ -1080,7 +1143,13 @@ func c06ConfigKey(cfg *c06Config) string {
 	if cfg.Protocols != 0 {
 		f = append(f, "protocols="+c06MaskKey(cfg.Protocols, 3))
 	}
-	if cfg.Codecs != 0 {
+	if len(cfg.CodecList) > 0 {
+		var p []string
+		for _, v := range cfg.CodecList {
+			p = append(p, fmt.Sprint(v))
+		}
+		f = append(f, "codecs-in-this-order="+strings.Join(p, ">"))
+	} else if cfg.Codecs != 0 {
 		f = append(f, "codecs="+c06MaskKey(cfg.Codecs, 3))
 	}
 	if cfg.Compressions != 0 {
@@ -1132,6 +1201,18 @@ func c06Reaches(big, small *c06Config) bool {
 	if !sub(small.Versions, big.Versions) || !sub(small.Protocols, big.Protocols) || !sub(small.Codecs, big.Codecs) ||
 		!sub(small.Compressions, big.Compressions) || !sub(small.StreamTypes, big.StreamTypes) {
 		return false
+	}
+	if len(small.CodecList) > 0 {
+		// the written list of small must be obtainable by deleting elements of big's
+		seq, j := c06CodecSeq(big), 0
+		for _, v := range seq {
+			if j < len(small.CodecList) && small.CodecList[j] == v {
+				j++
+			}
+		}
+		if j != len(small.CodecList) {
+			return false
+		}
 	}
 	// every entry of small comes from a distinct entry of big with a superset of
 	// its set fields; an include entry of small may come from an exclude entry of big
@@ -1378,6 +1459,19 @@ func c06Enumerate(thorough bool, visit func(family string, cfg *c06Config) bool)
 			}
 		}
 	}
+	// Two (thorough: four) further bases whose codecs field is an ordered list with
+	// the deprecated CODEC_TEXT in front of / between the codecs in use: an entry
+	// that omits codec ranges over "the codecs the features support", which must
+	// not depend on where the ignored value stands.
+	all := c06Bases()
+	bases = append(bases[:len(bases):len(bases)],
+		c06WithCodecList(all[0], []int{c06Text, 1, 2}),
+		c06WithCodecList(all[6], []int{1, c06Text, 2}))
+	if thorough {
+		bases = append(bases,
+			c06WithCodecList(all[3], []int{c06Text, 2}),
+			c06WithCodecList(all[9], []int{2, c06Text, 1}))
+	}
 	// lists of length 1, every entry
 	for ei, e := range entries {
 		for bi := range bases {
@@ -1483,6 +1577,47 @@ func c06Enumerate(thorough bool, visit func(family string, cfg *c06Config) bool)
 		}
 	}
 
+	// Family E: the codecs field as an ordered list. Every arrangement of every
+	// subset of {proto, json, text} with at least two elements (12), two lists
+	// with a repeated element, on all version/protocol subsets with the transport
+	// flags; thorough: also with explicit compressions and as YAML.
+	var codecLists [][]int
+	for _, l := range [][]int{{1, 2}, {1, c06Text}, {2, c06Text}} {
+		codecLists = append(codecLists, l, []int{l[1], l[0]})
+	}
+	for _, l := range [][]int{{1, 2, 3}, {1, 3, 2}, {2, 1, 3}, {2, 3, 1}, {3, 1, 2}, {3, 2, 1}} {
+		codecLists = append(codecLists, l)
+	}
+	codecLists = append(codecLists, []int{c06Text, 1, c06Text, 2}, []int{1, c06Text, 1})
+	comprChoicesE := []int{0}
+	formsE := []int{0}
+	if thorough {
+		comprChoicesE = []int{0, 1<<1 | 1<<3}
+		formsE = []int{0, 1}
+	}
+	for _, cl := range codecLists {
+		for _, cm := range comprChoicesE {
+			for vs := 0; vs < 8; vs++ {
+				for ps := 0; ps < 8; ps++ {
+					for _, ss := range []int{0, 1<<0 | 1<<(c06Half-1) | 1<<(c06Full-1)} {
+						for fi := 0; fi < 81; fi++ { // h2c, tls, certs, trailers
+							if !thorough && fi%3 == 2 && vs != 0 {
+								continue
+							}
+							for _, form := range formsE {
+								cfg := c06WithCodecList(c06Config{Versions: vs, Protocols: ps, StreamTypes: ss, Compressions: cm,
+									Flags: c06FlagsFromIndex(fi), Form: form}, cl)
+								if !visit("E-codec-order", &cfg) {
+									return
+								}
+							}
+						}
+					}
+				}
+			}
+		}
+	}
+
 	// Family A, the product itself.
 	for fi := 0; fi < 2187; fi++ {
 		flags := c06FlagsFromIndex(fi)
@@ -1567,7 +1702,7 @@ func TestVerifC06(t *testing.T) {
 	r := rep.New("c06-enum")
 	defer r.Write()
 	r.Rule = "odometer over Config messages (families: default; A all subsets of versions x protocols x stream types x 3^7 flags; " +
-		"C codec/compression choices; D reordered/duplicated lists and YAML form; B include/exclude lists of 1, 2 and 4 entries " +
+		"C codec/compression choices; E every ordered codecs list over {proto, json, text}; D reordered/duplicated lists and YAML form; B include/exclude lists of 1, 2 and 4 entries " +
 		"over 7,776 entries on representative feature bases); every configuration is distinct by construction; counted as " +
 		"non-trivial when the reference model yields a case set (not a feature-level contradiction), re-runs of the same " +
 		"configuration in another serialised form are evaluations but not counted as distinct"
@@ -1590,6 +1725,9 @@ func TestVerifC06(t *testing.T) {
 			t.Fatalf("replay file: %v", err)
 		}
 		cfg := rec.Replay
+		if len(cfg.CodecList) > 0 {
+			cfg.Codecs = c06MaskOf(cfg.CodecList)
+		}
 		got := c06Run(&cfg)
 		fs, class := c06Judge(&cfg, &got)
 		fmt.Printf("C06 replay of %s\n%s\nclass: %s\n", rec.Key, c06Describe(&cfg, &got), class)
